@@ -30,3 +30,10 @@ PROP = {
         "deliverFrame (rt.DeliverOwnedFrame) is outside the model: a delivery is the frame handed to it",
     ],
 }
+
+
+MANIFEST = {
+    "text": "Coq theorems over all bodies (0 .. 244*32767 bytes), headers and both roles: the split yields 1..32767 blocks of <= 244 body bytes numbered 1..N with the E-bit on exactly the last, each carrying the configured device id, the R-bit of the role, stream/function/W/system bytes and checksum = sum(header+body) mod 2^16; bodies concatenate to the message body (empty body: one header-only block); parse(append b) = b; every single replaced character of header, body or checksum is rejected (the one class the 16-bit sum cannot exclude — a shortened length byte — is exhibited explicitly); and over ALL inbound block sequences (with per-event clock and live T4): the assembler model's deliveries equal an independent declarative reading of SEMI E4 section 9.4 (complete, in order, correctly addressed, within T4, non-duplicate), soundness and completeness, never a link-fatal effect, wrong-device / wrong-direction / out-of-sequence / corrupt / duplicate blocks never delivered. Constants regenerated from the source and bridged; split/append/parse/assembleFrame and the production assembler (injected clock/T4) tied by hook differential; e2e against an independent E4 peer in all four role/mode combinations (line bytes and deliveries equal the model; State() stays Selected).",
+    "note": "Functions are tied by differential testing, not translation (no secs1 function fits the translator's subset); the model reads the clock once per accept call.",
+    "technique": 'Rocq/Coq proof (structural induction over bodies; fold refinement to a declarative E4 reading) + translator bridge for constants + hook differential with injected clock + e2e against an independent E4 peer',
+}
